@@ -475,7 +475,7 @@ func orderShapeToAST(shape []orderPkg) schemaBundle {
 				obj := schemaDecl{Kind: "object", Name: nm(d)}
 				obj.Fields = append(obj.Fields,
 					schemaField{Name: nm("objId"), Type: schemaType{K: "scalar", S: "key:id62"}, Pres: "req", PresForm: "mark"},
-					schemaField{Name: nm("kind"), Type: schemaType{K: "inline", Ik: "enum", Options: []string{"A", "B"}, Info: [][]string{{"delta", "quote"}, {"alpha", "astral"}, {"gamma", "ctl"}, {"beta", "bmp"}, {"epsilon", "plain"}}}, Pres: "none", PresForm: "mark"},
+					schemaField{Name: nm("kind"), Type: schemaType{K: "inline", Ik: "enum", Options: []string{"A", "B"}, Info: [][]string{{"delta", "quote"}, {"alpha", "astral"}, {"gamma", "ctl"}, {"beta", "bmp"}, {"epsilon", "plain"}, {"Alpha", "upper"}}}, Pres: "none", PresForm: "mark"},
 					schemaField{Name: nm("tags"), Type: schemaType{K: "map", Item: &schemaType{K: "scalar", S: "string"}}, Pres: "none", PresForm: "mark"},
 					schemaField{Name: nm("when"), Type: schemaType{K: "scalar", S: "timestamp"}, Pres: "opt", PresForm: "mark"},
 				)
